@@ -175,9 +175,10 @@ def listNext (xs : List Val) (brk : Sig) (i : Nat) : M (Val × Nat) :=
   | some v => pure (v, i + 1)
   | none => throw brk
 
-/-- **loop_list**: over a list the loop driver runs the block once per element in list order, `continue`
-    goes to the next element, `break` ends the loop, any other signal leaves it unchanged -/
-theorem loop_list (xs : List Val) (brk : Sig) (hb : brk.isBreak = true) (hc : brk.isContinue = false)
+/-- the loop driver over a PURE list iterator (a fixed list) runs the block once per element in list order,
+    `continue` goes to the next element, `break` ends the loop, any other signal leaves it unchanged.
+    (The evaluator's list iterator reads the backing array live: see `loop_list` in Props/C04Loops.lean.) -/
+theorem loop_pure_list_iterator (xs : List Val) (brk : Sig) (hb : brk.isBreak = true) (hc : brk.isContinue = false)
     (bind : Val → M Unit) (body : M Val) (f i : Nat) (s : St) (hf : xs.length - i < f) :
     run (iterLoop (listNext xs brk) bind body f i) s = run (forEach bind body (xs.drop i)) s := by
   induction f generalizing i s with
